@@ -705,6 +705,9 @@ struct SInterp<'a> {
     clients: BTreeMap<u8, TcpClient>,
     /// members of group 1 and of group 2 (same topic)
     members: [BTreeSet<u8>; 2],
+    /// members of the NAMESAKE group in a second stream (same topic id, same group id 1): joins and
+    /// disconnects only - its table must list exactly these connections
+    members_other_stream: BTreeSet<u8>,
     /// payload count per partition
     sent: Vec<u64>,
     /// next offset each group must be handed per partition
@@ -890,6 +893,14 @@ impl<'a> SInterp<'a> {
             a.create_topic(&sid(), "t", parts, CompressionAlgorithm::None, None, Some(topic_id), IggyExpiry::NeverExpire, MaxTopicSize::Unlimited).await?;
             a.create_consumer_group(&sid(), &self.t(), "g", Some(1)).await?;
             a.create_consumer_group(&sid(), &self.t(), "h", Some(2)).await?;
+            // a second stream whose topic and group carry the same numeric ids
+            let s2 = Identifier::numeric(SID + 1).unwrap();
+            a.create_stream("s-other", Some(SID + 1)).await?;
+            if topic_id == 2 {
+                a.create_topic(&s2, "pad", 1, CompressionAlgorithm::None, None, Some(1), IggyExpiry::NeverExpire, MaxTopicSize::Unlimited).await?;
+            }
+            a.create_topic(&s2, "t", 2, CompressionAlgorithm::None, None, Some(topic_id), IggyExpiry::NeverExpire, MaxTopicSize::Unlimited).await?;
+            a.create_consumer_group(&s2, &self.t(), "g", Some(1)).await?;
             Ok::<(), IggyError>(())
         });
         if let Err(e) = r {
@@ -905,6 +916,22 @@ impl<'a> SInterp<'a> {
             self.step = i;
             self.out.steps += 1;
             match op.clone() {
+                SOp::Join(sel) if sel & 64 != 0 => {
+                    let (_, c) = Self::split(sel);
+                    self.client(c)?;
+                    let n = self.node.as_ref().unwrap();
+                    let cl = self.clients.get(&c).unwrap();
+                    let s2 = Identifier::numeric(SID + 1).unwrap();
+                    let r = n.block_on(async { cl.join_consumer_group(&s2, &self.t(), &Self::gid(0)).await });
+                    self.panics("join (other stream)")?;
+                    if let Err(e) = r {
+                        return Err(self.fail("join-failed", format!("other stream: {e}")));
+                    }
+                    self.members_other_stream.insert(c);
+                    if self.members[0].contains(&c) {
+                        self.out.label("client-in-namesake-groups-of-two-streams");
+                    }
+                }
                 SOp::Join(sel) => {
                     let (g, c) = Self::split(sel);
                     self.client(c)?;
@@ -943,6 +970,7 @@ impl<'a> SInterp<'a> {
                         let n = self.node.as_ref().unwrap();
                         let _ = n.block_on(async { cl.shutdown().await });
                         drop(cl);
+                        self.members_other_stream.remove(&c);
                         let was0 = self.members[0].remove(&c);
                         let was1 = self.members[1].remove(&c);
                         let was = was0 || was1;
@@ -966,6 +994,13 @@ impl<'a> SInterp<'a> {
                                     .flatten()
                                     .map(|d| d.members_count as usize);
                                 if mc != Some(self.members[g].len()) {
+                                    groups_ok = false;
+                                }
+                            }
+                            {
+                                let s2 = Identifier::numeric(SID + 1).unwrap();
+                                let mc = n.block_on(async { self.admin.as_ref().unwrap().get_consumer_group(&s2, &self.t(), &Self::gid(0)).await }).ok().flatten().map(|d| d.members_count as usize);
+                                if mc != Some(self.members_other_stream.len()) {
                                     groups_ok = false;
                                 }
                             }
@@ -1033,6 +1068,24 @@ impl<'a> SInterp<'a> {
                 }
             }
             self.panics("after step")?;
+            {
+                let s2 = Identifier::numeric(SID + 1).unwrap();
+                let n = self.node();
+                let r = n.block_on(async { self.admin.as_ref().unwrap().get_consumer_group(&s2, &self.t(), &Self::gid(0)).await });
+                match r {
+                    Ok(Some(g)) => {
+                        if g.members_count as usize != self.members_other_stream.len() || g.members.len() != self.members_other_stream.len() {
+                            return Err(self.fail("group-members-count", format!(
+                                "after step, the namesake group in the other stream reports {} members ({} listed), {} joined: {:?}", g.members_count, g.members.len(), self.members_other_stream.len(), self.members_other_stream)));
+                        }
+                        let shares: BTreeMap<u32, Vec<u32>> = g.members.iter().map(|m| (m.id, m.partitions.clone())).collect();
+                        if let Err(d) = assignment_valid(&shares, 2) {
+                            return Err(self.fail("assignment-invalid", format!("after step, other stream: {d}")));
+                        }
+                    }
+                    other => return Err(self.fail("group-vanished", format!("other stream: {:?}", other.map(|o| o.is_some())))),
+                }
+            }
             for g in 0..2 {
                 let shares = self.group_view(g, "after step")?;
                 if shares.len() as u32 > self.sent.len() as u32 {
@@ -1082,6 +1135,7 @@ impl Engine for Groups {
         let max_ops = if p.tier == Tier::Thorough { 50 } else { 30 };
         let op = prop_oneof![
             6 => (0u8..5, grp(), by_name()).prop_map(|(c, g, n)| SOp::Join(c | g | n)),
+            2 => (0u8..5).prop_map(|c| SOp::Join(c | 64)),
             2 => (0u8..5, grp(), by_name()).prop_map(|(c, g, n)| SOp::Leave(c | g | n)),
             2 => (0u8..5).prop_map(SOp::Disconnect),
             2 => (1u8..4).prop_map(SOp::AddParts),
@@ -1101,6 +1155,7 @@ impl Engine for Groups {
             admin: None,
             clients: BTreeMap::new(),
             members: [BTreeSet::new(), BTreeSet::new()],
+            members_other_stream: BTreeSet::new(),
             sent: vec![],
             handed: [vec![], vec![]],
             out: Outcome::default(),
@@ -1129,6 +1184,6 @@ impl Engine for Groups {
         out
     }
     fn rule(&self, _p: &Params) -> String {
-        "case = generated history of join / leave / disconnect of up to 5 client connections in TWO consumer groups of the same topic (a connection may be a member of both), create / delete partitions (1..8), sends, and poll(next, auto-commit, no partition id) by arbitrary clients in arbitrary order against the real server over TCP; after every step get_consumer_group of BOTH groups must list exactly the joined connections and satisfy the validity predicate (every partition assigned to exactly one member, shares differ by <= 1); every poll must be served from the polling member's share, rotate through it, and hand out exactly the next offsets of that partition (none twice, none skipped); a final drain must hand out everything; non-trivial = more members than partitions, or a non-empty poll after a membership / partition-count change, or the disconnect of a member of both groups".into()
+        "case = generated history of join / leave / disconnect of up to 5 client connections in TWO consumer groups of the same topic (a connection may be a member of both, and of the namesake group - same topic id, same group id - in a second stream), create / delete partitions (1..8), sends, and poll(next, auto-commit, no partition id) by arbitrary clients in arbitrary order against the real server over TCP; after every step get_consumer_group of BOTH groups must list exactly the joined connections and satisfy the validity predicate (every partition assigned to exactly one member, shares differ by <= 1); every poll must be served from the polling member's share, rotate through it, and hand out exactly the next offsets of that partition (none twice, none skipped); a final drain must hand out everything; non-trivial = more members than partitions, or a non-empty poll after a membership / partition-count change, or the disconnect of a member of both groups".into()
     }
 }
